@@ -216,6 +216,101 @@ fn exec_guarded<C>(exec: fn(&C) -> Outcome, case: &C) -> Outcome {
     }
 }
 
+/// Run one case in a forked child process, so that what no `catch_unwind` can stop - a stack
+/// overflow, an abort, a double panic - is reported as a failure of *this case* (and shrunk
+/// and replayed like any other) instead of killing the worker.  The child sends its `Outcome`
+/// back through a pipe.  `what` names the receiver for the signature.
+///
+/// Only call this from a single-threaded point (the proptest loop of a worker): the child
+/// inherits just the calling thread.
+pub fn isolated(what: &str, f: impl FnOnce() -> Outcome) -> Outcome {
+    unsafe {
+        let mut fds = [0i32; 2];
+        if libc::pipe(fds.as_mut_ptr()) != 0 {
+            return f();
+        }
+        let pid = libc::fork();
+        if pid < 0 {
+            libc::close(fds[0]);
+            libc::close(fds[1]);
+            return f();
+        }
+        if pid == 0 {
+            libc::close(fds[0]);
+            let out = match catch(f) {
+                Ok(o) => o,
+                Err(p) => Outcome::fail(format!("panic:{}", panic_site(&p)), p.chars().take(160).collect::<String>()),
+            };
+            let bytes = serde_json::to_vec(&out).unwrap_or_default();
+            let mut off = 0usize;
+            while off < bytes.len() {
+                let n = libc::write(fds[1], bytes[off..].as_ptr() as *const libc::c_void, bytes.len() - off);
+                if n <= 0 {
+                    break;
+                }
+                off += n as usize;
+            }
+            libc::close(fds[1]);
+            libc::_exit(0);
+        }
+        libc::close(fds[1]);
+        let mut buf: Vec<u8> = Vec::new();
+        let mut chunk = [0u8; 65536];
+        // 10 s per case; once a worker has seen five such cases, 2 s (a tree on which cases spin
+        // must not turn a quick run into hours)
+        static TIMEOUTS: std::sync::atomic::AtomicU32 = std::sync::atomic::AtomicU32::new(0);
+        let dflt = if TIMEOUTS.load(std::sync::atomic::Ordering::Relaxed) >= 5 { 2 } else { 10 };
+        let limit_s: u64 = std::env::var("VERIF_CASE_TIMEOUT_S").ok().and_then(|s| s.parse().ok()).unwrap_or(dflt);
+        let deadline = std::time::Instant::now() + std::time::Duration::from_secs(limit_s);
+        loop {
+            let left = deadline.saturating_duration_since(std::time::Instant::now());
+            if left.is_zero() {
+                // CPU-bound without end (not a poll-budget matter): inconclusive, never a violation
+                libc::kill(pid, libc::SIGKILL);
+                let mut st = 0i32;
+                libc::waitpid(pid, &mut st, 0);
+                libc::close(fds[0]);
+                TIMEOUTS.fetch_add(1, std::sync::atomic::Ordering::Relaxed);
+                let mut o = Outcome::pass();
+                o.class("inconclusive:case-killed-after-time-limit");
+                o.count("case_timeouts", 1);
+                return o;
+            }
+            let mut pfd = libc::pollfd { fd: fds[0], events: libc::POLLIN, revents: 0 };
+            let r = libc::poll(&mut pfd, 1, left.as_millis().min(1000) as i32);
+            if r <= 0 {
+                continue;
+            }
+            let n = libc::read(fds[0], chunk.as_mut_ptr() as *mut libc::c_void, chunk.len());
+            if n < 0 && *libc::__errno_location() == libc::EINTR {
+                continue;
+            }
+            if n <= 0 {
+                break;
+            }
+            buf.extend_from_slice(&chunk[..n as usize]);
+        }
+        libc::close(fds[0]);
+        let mut status = 0i32;
+        while libc::waitpid(pid, &mut status, 0) < 0 && *libc::__errno_location() == libc::EINTR {}
+        if libc::WIFSIGNALED(status) {
+            let sig = libc::WTERMSIG(status);
+            let name = match sig {
+                libc::SIGABRT => "SIGABRT",
+                libc::SIGSEGV => "SIGSEGV",
+                libc::SIGBUS => "SIGBUS",
+                libc::SIGKILL => "SIGKILL",
+                _ => "signal",
+            };
+            return Outcome::fail(format!("{}:process-abort", what), format!("the process executing this case was killed by {} ({}): stack overflow / abort, which no error handling in the server can contain", name, sig));
+        }
+        match serde_json::from_slice::<Outcome>(&buf) {
+            Ok(o) => o,
+            Err(e) => Outcome::fail(format!("{}:process-exit-without-result", what), format!("child exited with status {} and no readable outcome ({})", status, e)),
+        }
+    }
+}
+
 /// Reduce a panic description to its source site (stable signature component).
 pub fn panic_site(p: &str) -> String {
     match p.rfind(" @ ") {
